@@ -250,36 +250,71 @@ def itemOps (M : List Cell) (x : Item × Bool) : List IOp :=
   | none => [IOp.add x.1.1 x.1.2]
   | some ai => if x.2 then [] else [IOp.move ((ai + 1) * 10000) x.1.1 x.1.2]
 
-def AddInv (M : List Cell) (done : List Item) (st : IosSt) : Prop :=
+/-- The suppression test of `moveACL` (without `moveOK`). -/
+def blkCond (blk : List Nat) (before : Nat) (sameAct : Bool) (ai : Nat) : Bool :=
+  (decide (before > 0) && blk.getD (before - 1) 0 == blk.getD ai 0) ||
+    (sameAct && decide (before < blk.length) && blk.getD before 0 == blk.getD ai 0)
+
+/-- `Rsn`: what is known about an item whose move was suppressed. -/
+def AddInv (M : List Cell) (Rsn : Item → Prop) (done : List Item) (st : IosSt) : Prop :=
   ∃ flags : List Bool, flags.length = done.length ∧
     st.ops = ((done.zip flags).flatMap (itemOps M)).reverse ∧
-    st.moved = (done.filterMap (lookupI M)).reverse
+    st.moved = (done.filterMap (lookupI M)).reverse ∧
+    ∀ x ∈ done.zip flags, x.2 = true → Rsn x.1
 
-theorem go_inv (M : List Cell) (blk : List Nat) (before : Nat) (al : List Line) (action0 : Act)
-    (sameAct : Bool) (ls : List Line) (i : Nat) (ok : Bool) (st : IosSt) (done : List Item)
-    (h : AddInv M done st)
-    (hnd : ((done ++ itemsFrom before i ls).filterMap (lookupI M)).Nodup) :
-    AddInv M (done ++ itemsFrom before i ls) (iosRun.go M blk before al action0 sameAct ls i ok st) := by
-  induction ls generalizing i ok st done with
+theorem go_inv (M : List Cell) (Rsn : Item → Prop) (blk : List Nat) (before : Nat) (al : List Line)
+    (action0 : Act) (sameAct : Bool) (full pre ls : List Line) (hfull : full = pre ++ ls)
+    (hR : ∀ i b ai, full[i]? = some b → ((full.take (i + 1)).all fun c => action0 == c.act) = true →
+      iosDelLookup M b.mkey = some ai → blkCond blk before sameAct ai = true →
+      Rsn (before * 10000 + i + 1, b))
+    (st : IosSt) (done : List Item)
+    (h : AddInv M Rsn done st)
+    (hnd : ((done ++ itemsFrom before pre.length ls).filterMap (lookupI M)).Nodup) :
+    AddInv M Rsn (done ++ itemsFrom before pre.length ls)
+      (iosRun.go M blk before al action0 sameAct ls pre.length
+        (pre.all fun c => action0 == c.act) st) := by
+  induction ls generalizing pre st done with
   | nil => simpa [itemsFrom, iosRun.go] using h
   | cons b rest ih =>
     simp only [iosRun.go, itemsFrom]
-    have happ : done ++ (before * 10000 + i + 1, b) :: itemsFrom before (i + 1) rest =
-        (done ++ [(before * 10000 + i + 1, b)]) ++ itemsFrom before (i + 1) rest := by simp
+    have happ : done ++ (before * 10000 + pre.length + 1, b) :: itemsFrom before (pre.length + 1) rest =
+        (done ++ [(before * 10000 + pre.length + 1, b)]) ++ itemsFrom before (pre.length + 1) rest := by
+      simp
     simp only [itemsFrom] at hnd
     rw [happ] at hnd ⊢
-    apply ih
-    · obtain ⟨flags, hlen, hops, hmoved⟩ := h
+    have hpre : (pre ++ [b]).length = pre.length + 1 := by simp
+    have hok : ((pre.all fun c => action0 == c.act) && action0 == b.act) =
+        ((pre ++ [b]).all fun c => action0 == c.act) := by simp
+    have hfull' : full = (pre ++ [b]) ++ rest := by rw [hfull]; simp
+    have hget : full[pre.length]? = some b := by rw [hfull]; simp
+    have htake : full.take (pre.length + 1) = pre ++ [b] := by
+      rw [hfull', ← hpre, List.take_left']; rfl
+    have ih' : ∀ (st' : IosSt) (done' : List Item), AddInv M Rsn done' st' →
+        ((done' ++ itemsFrom before (pre.length + 1) rest).filterMap (lookupI M)).Nodup →
+        AddInv M Rsn (done' ++ itemsFrom before (pre.length + 1) rest)
+          (iosRun.go M blk before al action0 sameAct rest (pre.length + 1)
+            ((pre.all fun c => action0 == c.act) && action0 == b.act) st') := by
+      intro st' done' h1 h2
+      have := ih (pre ++ [b]) hfull' st' done' h1 (by rw [hpre]; exact h2)
+      rw [hpre, ← hok] at this
+      exact this
+    apply ih'
+    · obtain ⟨flags, hlen, hops, hmoved, hrsn⟩ := h
       cases hl : iosDelLookup M b.mkey with
       | none =>
-        refine ⟨flags ++ [false], by simp [hlen], ?_, ?_⟩
+        refine ⟨flags ++ [false], by simp [hlen], ?_, ?_, ?_⟩
         · simp [List.zip_append hlen.symm, itemOps, hl, hops]
         · simp [List.filterMap_append, lookupI, hl, hmoved]
+        · intro x hx hx2
+          rw [List.zip_append hlen.symm] at hx
+          rcases List.mem_append.mp hx with hx | hx
+          · exact hrsn x hx hx2
+          · simp at hx; rw [hx] at hx2; simp at hx2
       | some ai =>
         have hnot : st.moved.contains ai = false := by
           rw [List.filterMap_append, List.filterMap_append] at hnd
           have h1 := (List.nodup_append.mp (List.nodup_append.mp hnd).1).2.2
-          have h2 : ai ∈ List.filterMap (lookupI M) [(before * 10000 + i + 1, b)] := by
+          have h2 : ai ∈ List.filterMap (lookupI M) [(before * 10000 + pre.length + 1, b)] := by
             simp [lookupI, hl]
           cases hc : st.moved.contains ai with
           | false => rfl
@@ -289,29 +324,60 @@ theorem go_inv (M : List Cell) (blk : List Nat) (before : Nat) (al : List Line) 
             exact absurd rfl (h1 ai hm ai h2)
         simp only [hnot, Bool.false_eq_true, if_false]
         split
-        · refine ⟨flags ++ [true], by simp [hlen], ?_, ?_⟩
+        · rename_i hsup
+          refine ⟨flags ++ [true], by simp [hlen], ?_, ?_, ?_⟩
           · simp [List.zip_append hlen.symm, itemOps, hl, hops]
           · simp [List.filterMap_append, lookupI, hl, hmoved]
-        · refine ⟨flags ++ [false], by simp [hlen], ?_, ?_⟩
+          · intro x hx hx2
+            rw [List.zip_append hlen.symm] at hx
+            rcases List.mem_append.mp hx with hx | hx
+            · exact hrsn x hx hx2
+            · simp at hx
+              rw [hx]
+              rw [Bool.and_eq_true] at hsup
+              apply hR pre.length b ai hget _ hl
+              · exact hsup.2
+              · rw [htake, ← hok]; exact hsup.1
+        · refine ⟨flags ++ [false], by simp [hlen], ?_, ?_, ?_⟩
           · simp [List.zip_append hlen.symm, itemOps, hl, hops]
           · simp [List.filterMap_append, lookupI, hl, hmoved]
+          · intro x hx hx2
+            rw [List.zip_append hlen.symm] at hx
+            rcases List.mem_append.mp hx with hx | hx
+            · exact hrsn x hx hx2
+            · simp at hx; rw [hx] at hx2; simp at hx2
     · exact hnd
 
-theorem runs_inv (M : List Cell) (blk : List Nat) (runs : List (Nat × Nat × List Line))
-    (st : IosSt) (done : List Item) (h : AddInv M done st)
+/-- What `iosRun` knows when it suppresses the move of line `i` of run `r`. -/
+def RunRsn (M : List Cell) (blk : List Nat) (r : Nat × Nat × List Line) (it : Item) : Prop :=
+  ∃ i b ai, r.2.2[i]? = some b ∧ it = (r.1 * 10000 + i + 1, b) ∧
+    ((r.2.2.take (i + 1)).all fun c => (r.2.2.headD default).act == c.act) = true ∧
+    iosDelLookup M b.mkey = some ai ∧
+    blkCond blk r.1 (r.2.2.all fun c => c.act == (r.2.2.headD default).act) ai = true
+
+theorem runs_inv (M : List Cell) (Rsn : Item → Prop) (blk : List Nat)
+    (runs : List (Nat × Nat × List Line))
+    (hR : ∀ r ∈ runs, ∀ it, RunRsn M blk r it → Rsn it)
+    (st : IosSt) (done : List Item) (h : AddInv M Rsn done st)
     (hnd : ((done ++ runs.flatMap runItems).filterMap (lookupI M)).Nodup) :
-    AddInv M (done ++ runs.flatMap runItems) (runs.foldl (iosRun M blk) st) := by
+    AddInv M Rsn (done ++ runs.flatMap runItems) (runs.foldl (iosRun M blk) st) := by
   induction runs generalizing st done with
   | nil => simpa using h
   | cons r rest ih =>
     obtain ⟨b, i, ls⟩ := r
     simp only [List.flatMap_cons, List.foldl_cons] at hnd ⊢
     rw [← List.append_assoc] at hnd ⊢
-    apply ih
+    apply ih (fun r hr => hR r (List.mem_cons_of_mem _ hr))
     · have hnd' : ((done ++ itemsFrom b 0 ls).filterMap (lookupI M)).Nodup := by
         rw [List.filterMap_append] at hnd
         exact (List.nodup_append.mp hnd).1
-      exact go_inv M blk b _ _ _ ls 0 true st done h hnd'
+      have := go_inv M Rsn blk b (olds M) (ls.headD default).act
+        (ls.all fun c => c.act == (ls.headD default).act) ls [] ls rfl
+        (by
+          intro i' b' ai h1 h2 h3 h4
+          exact hR (b, i, ls) List.mem_cons_self _ ⟨i', b', ai, h1, rfl, h2, h3, h4⟩)
+        st done h hnd'
+      exact this
     · exact hnd
 
 /-! ### The delete phase -/
@@ -334,25 +400,31 @@ theorem delFold_ops (ais : List Nat) (st : IosSt) :
     by_cases hc : a ∈ st.moved <;> simp [hc]
 
 /-- Shape of the plan: adds / moves / suppressed moves for the new-only cells in order, then the
-deletes, bottom-up, of the device lines that no inserted line looked up. -/
-theorem planIOS_shape (M : List Cell) (hboth : (M.any fun c => c.old && c.new) = true)
+deletes, bottom-up, of the device lines that no inserted line looked up.  `flags`: the suppression
+decisions, each with its reason (`RunRsn` for the block ids `blk` that `blockPass` computed). -/
+theorem planIOS_shape' (M : List Cell) (hboth : (M.any fun c => c.old && c.new) = true)
     (hnd : (((addIdx M).map (newItem M)).filterMap (lookupI M)).Nodup) :
     ∃ flags : List Bool, flags.length = (addIdx M).length ∧
       planIOS M = (((addIdx M).map (newItem M)).zip flags).flatMap (itemOps M) ++
         ((((delIdx M).map (countOld M)).reverse.filter fun ai =>
             !(((addIdx M).map (newItem M)).filterMap (lookupI M)).contains ai).map
-          fun ai => IOp.del ((ai + 1) * 10000)) := by
+          fun ai => IOp.del ((ai + 1) * 10000)) ∧
+      ∀ x ∈ ((addIdx M).map (newItem M)).zip flags, x.2 = true →
+        ∃ r ∈ insertRuns M 0 0, RunRsn M
+          (blockPass (olds M) (insertRuns M 0 0) (blocksOf (olds M)) (maxBlock (olds M))).1 r x.1 := by
   rw [← insertRuns_numOf] at hnd ⊢
   unfold planIOS planIOS'
   simp only [hboth, Bool.not_true, Bool.false_eq_true, if_false]
   generalize (blockPass (olds M) (insertRuns M 0 0) (blocksOf (olds M)) (maxBlock (olds M))) = bp
   obtain ⟨blk, mx⟩ := bp
   simp only
-  have h0 : AddInv M [] {} := ⟨[], rfl, rfl, rfl⟩
-  have h1 := runs_inv M blk (insertRuns M 0 0) {} [] h0 (by simpa using hnd)
+  have h0 : AddInv M (fun it => ∃ r ∈ insertRuns M 0 0, RunRsn M blk r it) [] {} :=
+    ⟨[], rfl, rfl, rfl, by simp⟩
+  have h1 := runs_inv M _ blk (insertRuns M 0 0) (fun r hr it hit => ⟨r, hr, hit⟩) {} [] h0
+    (by simpa using hnd)
   simp only [List.nil_append] at h1
-  obtain ⟨flags, hlen, hops, hmoved⟩ := h1
-  refine ⟨flags, by rw [hlen, insertRuns_numOf]; simp, ?_⟩
+  obtain ⟨flags, hlen, hops, hmoved, hrsn⟩ := h1
+  refine ⟨flags, by rw [hlen, insertRuns_numOf]; simp, ?_, hrsn⟩
   have := delFold_ops ((delIdx M).map (countOld M)).reverse
     ((insertRuns M 0 0).foldl (iosRun M blk) {})
   unfold delStep at this
@@ -362,5 +434,15 @@ theorem planIOS_shape (M : List Cell) (hboth : (M.any fun c => c.old && c.new) =
   apply List.filter_congr
   intro x _
   simp
+
+theorem planIOS_shape (M : List Cell) (hboth : (M.any fun c => c.old && c.new) = true)
+    (hnd : (((addIdx M).map (newItem M)).filterMap (lookupI M)).Nodup) :
+    ∃ flags : List Bool, flags.length = (addIdx M).length ∧
+      planIOS M = (((addIdx M).map (newItem M)).zip flags).flatMap (itemOps M) ++
+        ((((delIdx M).map (countOld M)).reverse.filter fun ai =>
+            !(((addIdx M).map (newItem M)).filterMap (lookupI M)).contains ai).map
+          fun ai => IOp.del ((ai + 1) * 10000)) := by
+  obtain ⟨flags, h1, h2, _⟩ := planIOS_shape' M hboth hnd
+  exact ⟨flags, h1, h2⟩
 
 end NA.Acl
